@@ -158,7 +158,7 @@ class CFG:
         return b[0] in d and a[0] in d[b[0]]
 
     # ---- path rules ------------------------------------------------------------------
-    def path_avoiding(self, start, targets, stop_at_exit=True, blocked=()):
+    def path_avoiding(self, start, targets, stop_at_exit=True, blocked=(), blocked_edges=()):
         """is there a path from just after position `start` to the exit block that does not
         pass any position in `targets`?  returns the list of blocks of such a path or None.
         `blocked`: additional positions that end a path harmlessly (treated like targets)"""
@@ -169,7 +169,8 @@ class CFG:
         # rest of the start block
         if any(j > i for j in tset.get(bid, [])):
             return None
-        work = [(s, [bid, s]) for s in self.succ[bid]]
+        be = set(blocked_edges)
+        work = [(s, [bid, s]) for s in self.succ[bid] if (bid, s) not in be]
         seen = set()
         while work:
             b, path = work.pop()
@@ -181,7 +182,8 @@ class CFG:
             if b == self.exit:
                 return path
             for s in self.succ[b]:
-                work.append((s, path + [s]))
+                if (b, s) not in be:
+                    work.append((s, path + [s]))
         return None
 
     def path_between_avoiding(self, a, b, targets, blocked_edges=()):
